@@ -244,6 +244,7 @@ class MonitoredBucket:
         self._b = bucket
         self._m = monitor
         self._exc_type = exc_type
+        self.last_refused = None
 
     @staticmethod
     def _key():
@@ -254,6 +255,7 @@ class MonitoredBucket:
             r = self._b.consume(amt, token)
         except self._exc_type as e:
             self._m.on_consume(self._key(), amt, False, e.retry_time)
+            self.last_refused = self._key()        # (reset by the driver before each call)
             raise
         self._m.on_consume(self._key(), amt, True, None)
         return r
@@ -406,8 +408,38 @@ def compare(impl_outs, model_words, exact):
 # ---------------------------------------------------------------- stream histories
 
 class Coord:
+    """Stands for the transfer coordinator of a stream: `exception` is what the limiter reads.
+    arm(k, e): the transfer fails with e at the (k+1)-th read of `exception` from now on (a
+    failure landing in the middle of a call); the harness itself looks with peek()."""
+
     def __init__(self):
-        self.exception = None
+        self._exc = None
+        self._armed = None
+
+    @property
+    def exception(self):
+        if self._armed is not None:
+            k, e = self._armed
+            if k <= 0:
+                self._exc, self._armed = e, None
+            else:
+                self._armed = (k - 1, e)
+        return self._exc
+
+    @exception.setter
+    def exception(self, v):
+        self._exc = v
+
+    def peek(self):
+        return self._exc
+
+    def arm(self, k, e):
+        self._armed = (k, e)
+
+    def settle_arm(self):
+        """the call is over (or parked in its sleep): a still pending failure lands now"""
+        if self._armed is not None:
+            self._exc, self._armed = self._armed[1], None
 
 
 class Body:
@@ -476,7 +508,7 @@ def run_stream_history(rng, mx, thr, n_streams, n_events, use_default_thr=False)
             e = msg[1]
             if isinstance(e, HarnessStall):
                 raise e
-            outs.append('E' if e is coords[sid].exception else 'ERR:' + type(e).__name__)
+            outs.append('E' if e is coords[sid].peek() else 'ERR:' + type(e).__name__)
             mon.abandoned(sid)
             state[sid] = 'idle' if rng.random() < 0.3 else 'dead'
             nxt[sid] = now + Fraction(rng.randrange(0, 3))
@@ -496,7 +528,7 @@ def run_stream_history(rng, mx, thr, n_streams, n_events, use_default_thr=False)
         nonlocal now
         clock.set(max(now, nxt[sid]))
         now = clock.now
-        exc = 1 if coords[sid].exception is not None else 0
+        exc = 1 if coords[sid].peek() is not None else 0
         before = mon.consumes_by.get(sid, 0)
         if state[sid] == 'sleep':
             events.append(('w', sid, exc, now))
@@ -512,7 +544,20 @@ def run_stream_history(rng, mx, thr, n_streams, n_events, use_default_thr=False)
                 loop = enabled[sid] and seen[sid] + amt >= thr
                 if enabled[sid]:
                     seen[sid] += amt
+                if loop and not exc and rng.random() < 0.12:
+                    # the transfer fails while this very read is inside the limiter: after the loop's
+                    # check of the coordinator, before (or while) the bucket refuses the request
+                    coords[sid].arm(1, TransferFailed(f'transfer of stream {sid} failed mid-read'))
+                bucket.last_refused = None
                 msg = acts[sid - 1].call(lambda: s.read(amt))
+                coords[sid].settle_arm()
+                if msg[0] not in ('sleep', 'exc') and bucket.last_refused == sid:
+                    # the bucket refused this stream's request and the read handed out data all the same:
+                    # neither waited for its slot nor raised the transfer's error (and the slot it was
+                    # given stays booked: every later request waits for it)
+                    mon._bad('refused-read-returned', f'stream {sid}: the bucket refused its request at {float(now)} '
+                                                      f'(scheduled it), yet read() returned data without waiting and without '
+                                                      f'raising the transfer\'s error; the scheduled slot is never given back')
             elif r < 0.9:
                 cur_op[sid] = 'close'
                 events.append(('z', sid, exc, now))
@@ -527,7 +572,7 @@ def run_stream_history(rng, mx, thr, n_streams, n_events, use_default_thr=False)
                 return
         if exc and loop:
             # failed_transfer_raises: raises that error, consumes nothing
-            if msg[0] != 'exc' or msg[1] is not coords[sid].exception:
+            if msg[0] != 'exc' or msg[1] is not coords[sid].peek():
                 mon._bad('failed-transfer', f'stream {sid} entered its loop at {float(now)} with the transfer\'s '
                                             f'exception set and did not raise it (answer {msg[0]})')
             if mon.consumes_by.get(sid, 0) != before:
@@ -547,7 +592,7 @@ def run_stream_history(rng, mx, thr, n_streams, n_events, use_default_thr=False)
             break
         if rng.random() < 0.07:
             v = rng.choice(live)
-            if coords[v].exception is None:
+            if coords[v].peek() is None:
                 coords[v].exception = TransferFailed(f'transfer of stream {v} failed')
         sid = min(live, key=lambda x: (nxt[x], x)) if rng.random() < 0.75 else rng.choice(live)
         do_event(sid)
